@@ -221,7 +221,8 @@ func ToBoolean(ctx *expr.Context, input system.Collection, args ...expr.Expressi
 	// Input reading
 	value, err := system.From(input[0])
 	if err != nil {
-		return nil, err
+		// not a System value (a complex element): not convertible
+		return system.Collection{}, nil
 	}
 	// Input conversion
 	switch value := value.(type) {
@@ -338,7 +339,8 @@ func ToDecimal(ctx *expr.Context, input system.Collection, args ...expr.Expressi
 	// Input reading
 	value, err := system.From(input[0])
 	if err != nil {
-		return nil, err
+		// not a System value (a complex element): not convertible
+		return system.Collection{}, nil
 	}
 	// Input conversion
 	switch value.(type) {
@@ -384,7 +386,8 @@ func ToInteger(ctx *expr.Context, input system.Collection, args ...expr.Expressi
 	// Input reading
 	value, err := system.From(input[0])
 	if err != nil {
-		return nil, err
+		// not a System value (a complex element): not convertible
+		return system.Collection{}, nil
 	}
 	// Input conversion
 	switch value.(type) {
@@ -434,7 +437,8 @@ func ToQuantity(ctx *expr.Context, input system.Collection, args ...expr.Express
 	// Input reading
 	value, err := system.From(input[0])
 	if err != nil {
-		return nil, err
+		// not a System value (a complex element): not convertible
+		return system.Collection{}, nil
 	}
 	// Input conversion
 	switch value := value.(type) {
